@@ -194,6 +194,86 @@ def run(ctx):
                            "max_encoding_size() = %d; encoder upper bound = type %d + 8*%d varints + 21*%d cids + %d fixed = %d"
                            % (cs, ft, nv, nc, fx + fixed_bytes, bound))
     ctx.floor("R2", "encoder/size pairs compared", n, 21)
+    # ---------------------------------------------------------------- R1: field order written == field order parsed
+    ctx.rule("R1", "codec shape agreement: the order in which an encoder writes a frame's fields equals the order in which the "
+                   "frame's parser reads the values that reach those fields (straight-line encoders with sequential or tuple parsers)")
+    from rules.nomclass import is_nom_result_ty
+    n1 = 0
+    for adt, eb in sorted(encs.items()):
+        if any(eb.term(i)["t"] == "switch" for i in eb.live_blocks()):
+            continue  # branchy encoders (Stream, Ack, ConnectionClose, Datagram...) are covered by R2 only
+        rpo = {b_: k for k, b_ in enumerate(eb._rpo())}
+        enc_order = []
+        for i, t in sorted(eb.calls(), key=lambda x: rpo.get(x[0], 0)):
+            nm = callee(t) + " " + (callee_orig(t) or "")
+            if re.search(r"put_varint|put_slice|put_connection_id|put_streamid|put_u\d+|put_reset_token|put_socket_addr|put_endpoint", nm) and len(t["args"]) > 1:
+                fs, _ = frame_fields(eb, t["args"][1], None)
+                fs = [f for (a, f) in fs if a == adt]
+                if len(fs) == 1 and (not enc_order or enc_order[-1] != fs[0]):
+                    enc_order.append(fs[0])
+        if len(enc_order) < 2:
+            continue
+        # the parser: a body (or closure) in the frame's module that builds the frame struct
+        def in_parser(b_):
+            if is_nom_result_ty(b_.local_ty(0)):
+                return True
+            par = prog.bodies.get(b_.get("parent")) if b_.kind == "closure" else None
+            return par is not None and (is_nom_result_ty(par.local_ty(0)) or in_parser(par))
+        decs = [b_ for b_ in prog.bodies.values() if b_.crate == "qbase" and b_.short.startswith(adt.rsplit("::", 1)[0] + "::") and
+                in_parser(b_) and agg_sites(b_, "^" + re.escape(adt) + "$")]
+        if len(decs) != 1:
+            continue
+        db = decs[0]
+        drpo = {b_: k for k, b_ in enumerate(db._rpo())}
+        (ai, aj, arv, aline) = agg_sites(db, "^" + re.escape(adt) + "$")[0]
+        dec_pos = {}
+        for fname, op in zip(arv[1]["fields"], arv[2]):
+            # walk back to the parser call that produced the value; remember a tuple index on the way
+            seen = set()
+            work = [(op, None)]
+            best = None
+            while work:
+                o, tix = work.pop()
+                pl = op_place(o)
+                if pl is None or (pl[0], tix) in seen:
+                    continue
+                seen.add((pl[0], tix))
+                proj = [e for e in pl[1:] if isinstance(e, str) and e.startswith(".")]
+                if proj and tix is None and len(proj) >= 1:
+                    k = proj[-1][1:].split(":")[0]
+                    tix = int(k) if k.isdigit() else None
+                if db.kind == "closure" and pl[0] == 2 and tix is not None and not is_nom_result_ty(db.local_ty(0)):
+                    # `map((p0, p1, ..), |(a, b, ..)| Frame { .. })`: the closure's tuple argument carries the parser order
+                    cand = (0, tix)
+                    if best is None or cand < best:
+                        best = cand
+                    continue
+                for (bb, jj, rv) in db.defs_of(pl[0]):
+                    if jj == "term":
+                        if is_nom_result_ty(db.local_ty(rv["dest"][0])) and not callee(rv).endswith("Try>::branch"):
+                            cand = (drpo.get(bb, 0), tix if tix is not None else 0)
+                            if best is None or cand < best:
+                                best = cand
+                        else:
+                            for a in rv["args"]:
+                                work.append((a, tix))
+                    else:
+                        for a in rvalue_operands(rv):
+                            work.append((a, tix))
+                        for q in rvalue_places(rv):
+                            work.append((["c", q], tix))
+            if best is not None:
+                dec_pos[fname] = best
+        common = [f for f in enc_order if f in dec_pos]
+        if len(common) < 2 or len(set(dec_pos[f] for f in common)) < len(common):
+            continue  # order not recoverable for this parser shape
+        n1 += 1
+        ctx.touch(db)
+        dec_order = sorted(common, key=lambda f: dec_pos[f])
+        ctx.ob("R1", "%s|encoder and parser agree on field order" % adt.split("::")[-1], common == dec_order, eb.where(),
+               "encoder writes %s; parser reads %s — swapped writes of two same-typed fields keep every size and type check "
+               "happy but decode into the wrong fields" % (common, dec_order))
+    ctx.floor("R1", "frames with a recoverable field order on both sides", n1, 8)
     ctx.assume("put_varint writes exactly VarInt::encoding_size() bytes; put_connection_id writes 1 + len (value-level)")
 
 
